@@ -95,6 +95,69 @@ def run_one(args):
         shutil.rmtree(work, ignore_errors=True)
 
 
+def run_seed(args):
+    """Apply one stored seeded change to a scratch copy and run the checks that
+    are expected to report it (its own property + meta['also'])."""
+    sid, base, py = args
+    d = os.path.join(VERIF, 'seeded', sid)
+    meta = json.load(open(os.path.join(d, 'meta.json')))
+    work = tempfile.mkdtemp(prefix='petlsa_seed_')
+    try:
+        shutil.copytree(os.path.join(base, 'petl'), os.path.join(work, 'petl'),
+                        ignore=shutil.ignore_patterns('__pycache__', 'test'))
+        p = subprocess.run(['patch', '-p1', '-s', '--no-backup-if-mismatch', '-d', work, '-i', os.path.join(d, 'patch.diff')],
+                           stdout=subprocess.PIPE, stderr=subprocess.STDOUT, universal_newlines=True)
+        if p.returncode != 0:
+            return sid, meta['property'], 'STALE', 'patch does not apply to the current tree'
+        props = [meta['property']] + [x for x in meta.get('also', [])]
+        hit = []
+        for prop in props:
+            if not os.path.exists(os.path.join(VERIF, 'petlsa', 'rules', prop.lower() + '.py')):
+                continue
+            r = subprocess.run([py, '-B', '-m', 'petlsa.cli', prop, 'quick', '--root', work, '--no-write'],
+                               cwd=VERIF, stdout=subprocess.PIPE, stderr=subprocess.STDOUT, universal_newlines=True,
+                               timeout=600)
+            if r.returncode == 1:
+                hit.append(prop)
+        return sid, meta['property'], ('DETECTED' if hit else 'MISSED'), ','.join(hit)
+    finally:
+        shutil.rmtree(work, ignore_errors=True)
+
+
+def seeds_for(prop=None):
+    sd = os.path.join(VERIF, 'seeded')
+    out = []
+    if not os.path.isdir(sd):
+        return out
+    for sid in sorted(os.listdir(sd)):
+        mp = os.path.join(sd, sid, 'meta.json')
+        if not os.path.exists(mp):
+            continue
+        meta = json.load(open(mp))
+        if prop is None or meta['property'] == prop or prop in meta.get('also', []):
+            out.append(sid)
+    return out
+
+
+def checker_validation(prop, root, jobs=16):
+    """Used by the thorough tier: how the checker of `prop` fares on its
+    self-test mutants and on the stored seeded changes (scratch copies only;
+    reported in the evidence, never a verdict about /repo)."""
+    py = sys.executable
+    corpus = load_corpus([prop])
+    res = {'mutants': {}, 'seeds': {}}
+    with concurrent.futures.ThreadPoolExecutor(max_workers=jobs) as ex:
+        mres = list(ex.map(run_one, [(m, root, py) for m in corpus]))
+        sres = list(ex.map(run_seed, [(sid, root, py) for sid in seeds_for(prop)]))
+    for m, verdict, info, _ in mres:
+        res['mutants'][verdict] = res['mutants'].get(verdict, 0) + 1
+    res['mutant_problems'] = [m['id'] for m, v, _, _ in mres if v in ('MISSED', 'FALSE-ALARM', 'ERROR')]
+    for sid, p, verdict, info in sres:
+        res['seeds'][verdict] = res['seeds'].get(verdict, 0) + 1
+    res['seed_details'] = {sid: '%s %s' % (v, info) for sid, p, v, info in sres}
+    return res
+
+
 def main(argv, root):
     jobs = 16
     verbose = False
@@ -107,6 +170,18 @@ def main(argv, root):
             verbose = True
         else:
             props.append(a.upper())
+    if props and props[0] == 'SEEDS':
+        py = sys.executable
+        ids = seeds_for(None)
+        with concurrent.futures.ThreadPoolExecutor(max_workers=jobs) as ex:
+            sres = list(ex.map(run_seed, [(sid, root, py) for sid in ids]))
+        tally = {}
+        for sid, p, v, info in sres:
+            tally[v] = tally.get(v, 0) + 1
+            if v != 'DETECTED' or verbose:
+                print('%-10s %s %s %s' % (v, sid, p, info))
+        print('seeds: %d: %s' % (len(sres), tally))
+        return 0
     corpus = load_corpus(props or None)
     py = sys.executable
     t0 = time.time()
